@@ -70,9 +70,9 @@ func overlapRef(a, bs, x, ys uint32) bool {
 }
 
 type c14Fail struct {
-	Fn          string
-	A, B, C, D  uint32
-	Got, Want   bool
+	Fn         string
+	A, B, C, D uint32
+	Got, Want  bool
 }
 
 func c14CheckOne(b, w uint32, sizes, wins []uint32, fail func(c14Fail)) int64 {
